@@ -116,8 +116,10 @@ def run(ctx):
         raise Inconclusive("TLC generated no history with an add overlapping a fork switch")
     # the same with the call free to go for chain.lock while the removals are under way
     rng.shuffle(cforks)
+    # first those in which the switch itself adds the id the overlapping call brings
+    cforks.sort(key=lambda h: 0 if h[-1]["b"]["g"] in h[-1]["ids"] and h[-1]["j"] >= 1 else 1)
     locks = [h[:-1] + [dict(h[-1], first="lock")] for h in cforks if h[-1]["j"] == 0]
-    cforks = cforks[:(600 if quick else 9000)] + locks[:(250 if quick else 3000)]
+    cforks = cforks[:(400 if quick else 9000)] + locks[:(150 if quick else 3000)]
     plain = [h for h in hists if h[-1]["op"] not in ("Fork", "Conc", "ConcFork")]
     forks = [h for h in hists if h[-1]["op"] == "Fork"]
     rng.shuffle(forks)
@@ -129,7 +131,9 @@ def run(ctx):
     forks = bent[:(300 if quick else 8000)] + [h for h in forks if not any(p != 98 for p in h[-1]["pres"])]
     rng.shuffle(concs)
     log("histories: %d plain, %d ending in a fork switch, %d ending in overlapping calls" % (len(plain), len(forks), len(concs)))
-    hists = plain + (forks[:700] if quick else forks[:20000]) + (concs[:900] if quick else concs[:25000]) + cforks
+    # the quick tier replays a seeded sample of the plain histories too (the thorough tier all of them)
+    rng.shuffle(plain)
+    hists = (plain[:5000] if quick else plain) + (forks[:500] if quick else forks[:20000]) + (concs[:600] if quick else concs[:25000]) + cforks
     drv = ctx.build("c19")
     # one driver process per chunk of histories: every history opens fresh stores (and the node's
     # logger set-up leaks two file descriptors per initialisation), so a process stays well below
@@ -150,7 +154,7 @@ def run(ctx):
     # every plain history that ends in an accepted add / a removal, and a sample of the fork switches
     cr = [h for h in plain if h[-1]["op"] in ("Add", "Remove")]
     rng.shuffle(cr)
-    cr = cr[:(400 if quick else 4000)] + forks[:(150 if quick else 2500)]
+    cr = cr[:(300 if quick else 4000)] + forks[:(100 if quick else 2500)]
     ncr = max(4 if quick else 16, (len(cr) * 3 + chunk - 1) // chunk)
     for k in range(ncr):
         sp = os.path.join(ctx.scratch, "cscript%d.json" % k)
@@ -198,13 +202,13 @@ def run(ctx):
         "real_calls": calls,
         "tlc_generated_histories": len(plain) + len(forks) + len(concs),
         "tlc_histories_replayed": len(hists),
-        "fork_switch_histories_replayed": min(len(forks), 700 if quick else 20000),
+        "fork_switch_histories_replayed": min(len(forks), 500 if quick else 20000),
         "overlapping_call_histories_generated": len(concs),
         "add_overlapping_fork_switch_histories_replayed": len(cforks),
         "add_overlapping_fork_switch_placed": nplaced,
         "lock_per_removal_variant_refuted_in_model": bool(split["error"]),
         "id_lookup_only_before_lock_variant_refuted_in_model": bool(norecheck["error"]),
-        "overlapping_call_histories_replayed": min(len(concs), 900 if quick else 25000),
+        "overlapping_call_histories_replayed": min(len(concs), 600 if quick else 25000),
         "samples": samples,
         "design_level_inductive_invariant": proof,
         "action_coverage": ref["coverage"],
